@@ -311,6 +311,53 @@ def run_case(repo, fi, pattern, min_n, x_dtype='float64', min_n_as_variable=Fals
     return ('return', bins), (xs, ys)
 
 
+def tolerance_histories(repo, fi):
+    """Two find_plateaus calls in one world (module-level tables and caches persist): the coordinate in ms, the tolerance in Hz/s,
+    first as an integer, then as the equal floating-point number (and the other way round, and twice the same).  -> bad histories"""
+    from sa.units import Unit
+    MS = Unit.named('ms')
+
+    def one(wi, wm, tol_dtype, tag):
+        # slopes in Hz/ms: 0, 0.001 (below the tolerance of 0.002 Hz/ms = 2 Hz/s), 0.005 (above)
+        xs = [F(0), F(1000), F(2000), F(3000), F(4000)]
+        ys = [F(10), F(10), F(11), F(11), F(16)]
+        xit = [sym_scalar(wi, wm, f'x{tag}{i}', MS, v) for i, v in enumerate(xs)]
+        yit = [sym_scalar(wi, wm, f'y{tag}{i}', HZ, v) for i, v in enumerate(ys)]
+        da = wm.array(wi, yit, 't')
+        da.kind = 'dataarray'
+        da.origin = 'data'
+        da.members['coords'] = {'t': wm.array(wi, xit, 't')}
+        atol = wm.new(wi, T.Rat.const(2), HZ / SEC, tol_dtype)
+        atol.members['concrete'] = 2 if tol_dtype == 'int64' else 2.0
+        atol.members['dims'] = []
+        try:
+            res = wi.call_function(fi, [da], {'atol': atol, 'min_n_points': 2})
+        except RaiseSignal as r:
+            return ('raise', r.exc_type)
+        if not isinstance(res, Binned):
+            return ('shape', repr(res)[:80])
+        return ('return', tuple(tuple(next((i for i, q in enumerate(yit) if q is y), None) for y in (items_of(b) or [])) for b in res.contents))
+    fresh = {}
+    for dt in ('int64', 'float64'):
+        T.reset()
+        wm = RunsModel()
+        fresh[dt] = one(WitnessInterp(repo, wm), wm, dt, 'b')
+    bad = []
+    n = 0
+    for first in ('int64', 'float64'):
+        for second in ('int64', 'float64'):
+            T.reset()
+            wm = RunsModel()
+            wi = WitnessInterp(repo, wm)
+            one(wi, wm, first, 'a')
+            wi.end_of_call()
+            got = one(wi, wm, second, 'b')
+            n += 1
+            if got != fresh[second]:
+                bad.append({'history': [f'tolerance 2 Hz/s as {first}', f'tolerance 2 Hz/s as {second}'], 'fresh': str(fresh[second]), 'after_the_first_call': str(got)})
+    return bad, n, fresh
+
+
 def rule(run, repo, tier, where):
     r6 = run.rule('R6', 'finite domain, decided at exact witness values: for every pattern of flat / exactly-at-tolerance / just-above-tolerance / far-exceeding steps (values near 10^6, coordinates near 10^9) of series of 2..4 points (thorough: 2..6) '
                         '(non-uniform coordinates) and every min_n_points, the bins returned are exactly the maximal runs of the definition: in input order, '
